@@ -51,15 +51,20 @@ def gen_roles(fi):
                     names = [x.id for x in (sl.upper.left, sl.upper.right) if isinstance(x, ast.Name)]
                     kname = [x for x in names if x != sl.lower.id]
                     if kname:
-                        return n.value.value.id, sl.lower.id, kname[0]
+                        off_is_target = isinstance(loop.target, ast.Name) and loop.target.id == sl.lower.id
+                        return n.value.value.id, sl.lower.id, kname[0], off_is_target
     raise Unsupported("_generate_pdv_fragments: no `yield data[off:off + k]` inside a for loop")
 
 
 class GenLoop(LoopSpec):
-    def __init__(self, data, off, k):
-        self.data, self.off, self.k = data, off, k
+    def __init__(self, data, off, k, off_is_target=False):
+        self.data, self.off, self.k, self.off_is_target = data, off, k, off_is_target
 
     def invariant(self, I, fr):
+        if self.off_is_target:
+            # the offset is the loop variable itself (`for off in range(0, n, k)`): nothing is carried between iterations;
+            # what the i-th fragment is, is stated on the yielded value
+            return True
         i = I._num(fr.locals["__idx0"], "int")
         return I._num(fr.locals[self.off], "int") == i * I._num(fr.locals[self.k], "int")
 
@@ -78,8 +83,8 @@ class GenTask(Task):
     def config(self, repo):
         c = Config()
         c.ob_prefix = "C15/"
-        data, off, k = gen_roles(repo.func(GEN))
-        c.loop_specs[(GEN, 0)] = GenLoop(data, off, k)
+        data, off, k, off_is_target = gen_roles(repo.func(GEN))
+        c.loop_specs[(GEN, 0)] = GenLoop(data, off, k, off_is_target)
         return c
 
     def body(self, I):
@@ -517,6 +522,7 @@ class DecodeStepTask(Task):
             I.ob(f"{P}/payload-appended-to-exactly-the-buffer-its-header-names", z3.And(cmd_ok, ds_ok), detail=f"writes={len(writes)}")
             cs = g.get("cs")
             if how == "return":
+                val = I.as_bool(val)
                 I.ob(f"{P}/returns-a-bool", val is True or val is False, detail=repr(val))
                 if val is True:
                     cdst = cs.attrs["CommandDataSetType"].e if cs is not None else None
@@ -540,7 +546,7 @@ class DecodeStepTask(Task):
         kind, val = I.run_function(I.repo.func(DEC), [msg, prim, Env("assoc")])
         if not g.get("in_loop"):
             # loop not entered (by induction this is the exit path: all PDVs processed, none was last)
-            I.ob(f"{P}/returns-False-when-no-PDV-was-a-last-fragment", kind == "return" and val is False, detail=f"{kind}:{val!r}")
+            I.ob(f"{P}/returns-False-when-no-PDV-was-a-last-fragment", kind == "return" and I.as_bool(val) is False, detail=f"{kind}:{val!r}")
             return
         if kind == "raise":
             # which inputs make decode_msg raise is C02's business (empty PDV value, undecodable command set,
